@@ -29,8 +29,10 @@ Proof.
   unfold merge_argdef. destruct (types_equal (ad_type p) (ad_type n)) eqn:Et; simpl; [|discriminate].
   apply types_equal_eq in Et.
   destruct ig; simpl.
-  - intros [= <-]. simpl. repeat split; auto. discriminate.
+  - destruct (dirlists_equal (ad_dirs p) (ad_dirs n)); simpl; [|discriminate].
+    intros [= <-]. simpl. repeat split; auto. discriminate.
   - destruct (values_equal (ad_default p) (ad_default n)) eqn:Ev; simpl; [|discriminate].
+    destruct (dirlists_equal (ad_dirs p) (ad_dirs n)); simpl; [|discriminate].
     apply values_equal_eq in Ev. intros [= <-]. simpl. repeat split; auto.
 Qed.
 
@@ -271,6 +273,7 @@ Proof.
   destruct (Nat.eqb (length (df_fields p)) (length (df_fields n))) eqn:El; simpl in H; [|discriminate].
   apply Nat.eqb_eq in El.
   match type of H with (bind ?X _ = _) => destruct X as [fs| |] eqn:Er; simpl in H; try discriminate end.
+  destruct (dirlists_equal (df_dirs p) (df_dirs n)); simpl in H; [|discriminate].
   injection H as <-. change (match_fields (df_fields p) (df_fields n) = Ok fs) in Er.
   destruct (match_fields_ok _ _ _ Er El Hnd Hwf) as (A & B & C & D).
   repeat split; simpl; auto. rewrite C. exact Hnd.
@@ -322,6 +325,7 @@ Proof.
   destruct (Nat.eqb (length (df_enums p)) (length (df_enums n))) eqn:El; simpl in H; [|discriminate].
   apply Nat.eqb_eq in El.
   match type of H with (bind ?X _ = _) => destruct X as [vs| |] eqn:Er; simpl in H; try discriminate end.
+  destruct (dirlists_equal (df_dirs p) (df_dirs n)); simpl in H; [|discriminate].
   injection H as <-. simpl. destruct (enum_match_ok _ _ _ Er) as [Hincl Hmap].
   assert (Hincl': incl (map ev_name (df_enums n)) (map ev_name (df_enums p))).
   { apply nodup_same_length_incl; auto. rewrite !map_length. exact El. }
@@ -338,6 +342,7 @@ Proof.
   unfold merge_unions, slices_equivalent. intros H Hnd.
   destruct (Nat.eqb (length (df_members p)) (length (df_members n)) &&
             forallb (fun x => str_mem x (df_members p)) (df_members n)) eqn:E; [|discriminate].
+  destruct (dirlists_equal (df_dirs p) (df_dirs n)); simpl in H; [|discriminate].
   injection H as <-. apply andb_true_iff in E. destruct E as [El Hs]. apply Nat.eqb_eq in El.
   assert (Hincl: incl (df_members n) (df_members p)) by (apply subset_incl; exact Hs).
   assert (Hincl': incl (df_members p) (df_members n)) by (apply nodup_same_length_incl; auto).
@@ -538,7 +543,8 @@ Proof.
     split; [|split; [|split; [exact C|split]]].
     + split; [apply D|intros _; exact D].
     + unfold merge_interfaces in H. destruct (negb _) in H; [discriminate|].
-      match type of H with (bind ?X _ = _) => destruct X; simpl in H; try discriminate end. injection H as <-. reflexivity.
+      match type of H with (bind ?X _ = _) => destruct X; simpl in H; try discriminate end.
+      destruct (negb _) in H; [discriminate|]. injection H as <-. reflexivity.
     + split; [congruence|]. rewrite Kn. eapply drel_trans; eauto.
     + intros d [Hkd Hd]. assert (Kd: df_kind d = KInterface) by congruence. rewrite Kd in Hd. split.
       * split; [congruence|]. rewrite Kd. eapply drel_trans; eauto.
@@ -566,7 +572,8 @@ Proof.
     split; [|split; [|split; [exact C|split]]].
     + split; [apply Hwd'|intros _; exact Hwd'].
     + unfold merge_enums in H. rewrite Hip in H. destruct (negb _) in H; [discriminate|].
-      match type of H with (bind ?X _ = _) => destruct X; simpl in H; try discriminate end. injection H as <-. reflexivity.
+      match type of H with (bind ?X _ = _) => destruct X; simpl in H; try discriminate end.
+      destruct (negb _) in H; [discriminate|]. injection H as <-. reflexivity.
     + split; [congruence|]. rewrite Kn. eapply drel_trans; eauto.
     + intros d [Hkd Hd]. assert (Kd: df_kind d = KEnum) by congruence. rewrite Kd in Hd. split.
       * split; [congruence|]. rewrite Kd. eapply drel_trans; eauto.
@@ -684,11 +691,14 @@ Proof.
   - unfold merge_objects. destruct (merge_object_fields _ _); simpl; try discriminate.
     destruct (negb _); [discriminate|]. intros [= <-]. auto.
   - unfold merge_interfaces. destruct (negb _); [discriminate|].
-    match goal with |- (bind ?X _ = _) -> _ => destruct X; simpl; try discriminate end. intros [= <-]. auto.
-  - unfold merge_unions. destruct (slices_equivalent _ _); [|discriminate]. intros [= <-]. auto.
+    match goal with |- (bind ?X _ = _) -> _ => destruct X; simpl; try discriminate end.
+    destruct (negb _); [discriminate|]. intros [= <-]. auto.
+  - unfold merge_unions. destruct (slices_equivalent _ _); [|discriminate].
+    destruct (negb _); [discriminate|]. intros [= <-]. auto.
   - unfold merge_enums. destruct (is_internal_name (df_name p)); [intros [= <-]; auto|].
     destruct (negb _); [discriminate|].
-    match goal with |- (bind ?X _ = _) -> _ => destruct X; simpl; try discriminate end. intros [= <-]. auto.
+    match goal with |- (bind ?X _ = _) -> _ => destruct X; simpl; try discriminate end.
+    destruct (negb _); [discriminate|]. intros [= <-]. auto.
   - unfold merge_inputs. destruct (negb _); [discriminate|].
     match goal with |- (bind ?X _ = _) -> _ => destruct X; simpl; try discriminate end.
     destruct (negb _); [discriminate|]. intros [= <-]. auto.
